@@ -382,6 +382,12 @@ func (c *codegen) analyzeFuncAndGlobalVarUsage() funcUsage {
 					return true
 				}
 				diff[name] = true
+			case *ast.Ident:
+				// A declared function of this package used as a value in
+				// a variable declaration (var f = helper).
+				if fn, ok := c.typeInfo.Uses[n].(*types.Func); ok && fn.Pkg() == pkg {
+					diff[c.getIdentName(pkgPath, n.Name)] = true
+				}
 			case *ast.FuncDecl:
 				name := c.getFuncNameFromDecl(pkgPath, n)
 
@@ -513,6 +519,11 @@ func (c *codegen) analyzeFuncAndGlobalVarUsage() funcUsage {
 						case *ast.SelectorExpr:
 							name, _ := c.getFuncNameFromSelector(t)
 							nextDiff[name] = true
+						}
+					case *ast.Ident:
+						// A declared function of this package used as a value (f := helper).
+						if fn, ok := c.typeInfo.Uses[n].(*types.Func); ok && fn.Pkg() == pkg.Types {
+							nextDiff[c.getIdentName(fd.path, n.Name)] = true
 						}
 					}
 					return true
